@@ -816,7 +816,8 @@ class C06(ParseProp):
                   "well-typed standard function call (C06_typing_partial); the whole pipeline accepts the entire filter-free sublanguage in canonical "
                   "spelling -- any number of child/descendant segments, bracketed unions of quoted names, wildcards, indices and slices with any "
                   "subset of their parts, shorthand names, any integers of the I-JSON range -- and every Normalized Path, and reads each as the "
-                  "right AST (C06_filter_free_partial, C06_normalized_paths_partial: the grammar of this run executed symbolically by proved "
+                  "right AST, also when written with any optional blank space at every S position (C06_filter_free_partial, "
+                  "C06_filter_free_blanks_partial, C06_normalized_paths_partial: the grammar of this run executed symbolically by proved "
                   "rules for the PEG interpreter, every abandoned alternative included, then the model of parser.rs). The whole-language acceptance "
                   "theorem (every RFC sentence is accepted) is NOT proved: that part rests on the differential run and is named partial.")
     level_note = "whole-language round trip not proved (partial); rendered sentences cover all layout choices, escapes, number formats; pest runtime modelled"
@@ -996,13 +997,15 @@ def in_sels_shorthand_fix(t):
 class C13(EvalProp):
     pid = "C13"
     design_ref = "DESIGN.md section 3, C13"
-    technique = "Coq lemmas on the RFC semantics (spellings denote the same selector/value) + Theorem A + k-spellings differential run"
+    technique = "Coq lemmas on the RFC semantics (spellings denote the same selector/value) + Theorem A + blank-space theorem through the generated grammar + k-spellings differential run"
     level_text = ("Coq theorems: shorthand, single- and double-quoted spellings of a plain name denote the same name selector; a single "
                   "selector in brackets is the selector; redundant parentheses and ?(expr) do not change a filter; integer and float "
-                  "spellings of one number compare alike against every value; through Theorem A the model inherits them. That blank space "
-                  "and layout do not change the AST is a parser fact checked on every run by rendering each query under k random layouts "
-                  "and spellings through the crate (quick k=6, thorough k=24) and comparing all results pairwise and with the RFC semantics.")
-    level_note = "the parser half (layout-insensitivity of the AST) is not proved; names spelled with escapes are the known class D7"
+                  "spellings of one number compare alike against every value; through Theorem A the model inherits them. That optional blank "
+                  "space does not change the AST is proved for the whole filter-free sublanguage (C13_blank_space_filter_free: the generated "
+                  "grammar executed symbolically with arbitrary blank runs at every S position); for filters it is checked on every run by "
+                  "rendering each query under k random layouts and spellings (quick k=6, thorough k=24) and by the slot sweep through the "
+                  "crate, comparing all results pairwise and with the RFC semantics.")
+    level_note = "layout-insensitivity of the AST is proved for filter-free queries only; names spelled with escapes are the known class D7"
     rule = ("each (query, document) is spelled k ways (name quoting, .* vs [*], ?e vs ?(e), int vs float, blank space at every S); all "
             "spellings go through query_with_path; observable = sequence of locations; a group is non-trivial when the RFC result is non-empty")
     n_quick = 2500
